@@ -69,6 +69,8 @@ structure Laws (E : Env) (src : Asset) (n0 : Nat) : Prop where
   /-- for what it wrote, the handler reports a non-empty exclusion list inside the asset -/
   reported : ∀ j, j.length = n0 → ∃ ex, finalExcl (E.embed src j) = some ex ∧ ex ≠ [] ∧
     ∀ r ∈ ex, r.start + r.length ≤ (E.embed src j).bytes.length
+  /-- the handler never writes an empty asset -/
+  nonempty : ∀ j, j.length = n0 → 1 ≤ (E.embed src j).bytes.length
   /-- replacing the payload by one of equal length keeps the layout, the length, and every byte
   outside the reported exclusions -/
   stable : ∀ j j' ex, j.length = n0 → j'.length = n0 → finalExcl (E.embed src j) = some ex →
@@ -80,6 +82,14 @@ structure Laws (E : Env) (src : Asset) (n0 : Nat) : Prop where
 def placeholderDH (alg : String) (src : Asset) (n : Nat) : DHash :=
   { excl := (exclusionsOf src.bytes.length src.locs false).getD [], algLen := alg.length
     hash := List.replicate n 0, pad := 10, pad2 := none }
+
+/-- the output stream after the first pass: the source with the placeholder store embedded -/
+abbrev firstOut (E : Env) (alg : String) (src : Asset) (n : Nat) : Asset :=
+  E.embed src (E.jumbf (placeholderDH alg src n) E.sigPlaceholder)
+
+/-- the second-pass DataHash before padding, for exclusion list `ex` and digest `h` -/
+abbrev rawDH (alg : String) (ex : List C15.Range) (h : List UInt8) : DHash :=
+  { excl := ex, algLen := alg.length, hash := h, pad := 0, pad2 := none }
 
 theorem exclusionsOf_first (len : Nat) (locs : List Loc) :
     ∃ ex, exclusionsOf len locs false = some ex := by
